@@ -10,6 +10,6 @@ CHECKS['C07'] = {
             'every case is non-trivial (it contains perturbations); distinct = distinct tuple fingerprint',
     'assumptions': ['blob.rb algorithm transcribed (Ruby not installed)', 'expiry within +-5 s of now is not generated (wall clock not injectable)'],
     'units': [
-        unit('sign', 'arvados', '^TestVerifC07', {'shards': 8, 'checks': 1500}, {'shards': 16, 'checks': 120000, 'timeout': 3000}),
+        unit('sign', 'arvados', '^TestVerifC07', {'shards': 8, 'checks': 1500}, {'shards': 16, 'checks': 40000, 'timeout': 3000}),
     ],
 }
